@@ -488,3 +488,101 @@ Definition check_c01_subs (o : list N) (l : list (N * N * list morph)) : bool :=
 
 Definition check_c08_subs (o : list N) (l : list (N * N * list morph)) : bool :=
   forallb (fun x => let '(_, _, subs) := x in forallb (morph_cp_ok o) subs) l.
+
+(* ================================================================== character-level accessors of the built (RO) buffer
+   (input_text/buffer/mod.rs; the InputTextIndex methods the plugins, the lattice builder and Morpheme use).
+   None = a Rust panic (index out of range, slice off a boundary, `end - cpt` underflow in debug). *)
+From SudachiVerif Require Generated.CategoryFacts.
+
+(* mod_chars.len() *)
+Definition char_len (t : list N) : nat := count_leads t.
+
+(* ch_idx: self.mod_b2c[idx] *)
+Definition ch_idx (cfg : bcfg) (t : list N) (i : nat) : option nat := nth_error (mod_b2c cfg t) i.
+
+(* to_curr_byte_idx: self.mod_c2b[index] *)
+Definition to_curr_byte_idx (t : list N) (ci : nat) : option nat := nth_error (mod_c2b t) ci.
+
+(* curr_slice_c: &self.modified[mod_c2b[start] .. mod_c2b[end]] *)
+Definition curr_slice_c (t : list N) (a b : nat) : option (list N) :=
+  match to_curr_byte_idx t a, to_curr_byte_idx t b with
+  | Some x, Some y => str_slice t x y
+  | _, _ => None
+  end.
+
+(* curr_slice: &self.modified[range] *)
+Definition curr_slice (t : list N) (a b : nat) : option (list N) := str_slice t a b.
+
+(* orig_slice_c: &self.original[to_orig_byte_idx(start) .. to_orig_byte_idx(end)] *)
+Definition orig_slice_c (s : buf) (a b : nat) : option (list N) :=
+  match to_orig_byte_idx s a, to_orig_byte_idx s b with
+  | Some x, Some y => str_slice (orig s) x y
+  | _, _ => None
+  end.
+
+(* char_distance: let end = (cpt + offset).min(mod_chars.len()); end - cpt *)
+Definition char_distance (t : list N) (cpt off : nat) : option nat :=
+  let e := Nat.min (cpt + off) (char_len t) in if e <? cpt then None else Some (e - cpt).
+
+(* CategoryType::all(): the union of all declared flags (re-read from category_type.rs) *)
+Definition cat_all : N := fold_left N.lor (map snd Generated.CategoryFacts.category_bits) 0%N.
+
+(* cat_of_range: empty range => CategoryType::empty(); else mod_cat[range].iter().fold(all(), |a, b| a & *b) *)
+Definition cat_of_range (cats : list N) (a b : nat) : option N :=
+  if b <=? a then Some 0%N
+  else match vec_slice cats a b with
+       | Some l => Some (fold_left N.land l cat_all)
+       | None => None
+       end.
+
+(* get_word_candidate_length: for i in (char_idx + 1)..char_len { if can_bow(mod_c2b[i]) { return i - char_idx } }
+   char_len - char_idx.   `starts` = byte offsets of the characters behind char_idx; None = mod_bow index out of range *)
+Fixpoint first_bow (starts : list nat) (bow : list bool) : option nat :=
+  match starts with
+  | [] => Some 0
+  | p :: r => match nth_error bow p with
+              | None => None
+              | Some true => Some 0
+              | Some false => option_map S (first_bow r bow)
+              end
+  end.
+
+Definition word_candidate_length (t : list N) (bow : list bool) (ci : nat) : option nat :=
+  if char_len t <? ci then None
+  else if Nat.eqb ci (char_len t) then Some 0
+  else option_map S (first_bow (skipn (S ci) (c2b_scan t 0)) bow).
+
+(* Morpheme::{begin, end, begin_c, end_c, surface} of a result node with character range [nbc, nec) and byte range
+   [nbb, neb) in the rewritten text (analysis/morpheme.rs) *)
+Record rnode := mkRN { rn_bc : nat; rn_ec : nat; rn_bb : nat; rn_eb : nat }.
+Definition morpheme_begin (s : buf) (n : rnode) : option nat := to_orig_byte_idx s (rn_bc n).
+Definition morpheme_end (s : buf) (n : rnode) : option nat := to_orig_byte_idx s (rn_ec n).
+Definition morpheme_begin_c (cfg : bcfg) (s : buf) (n : rnode) : option nat := to_orig_char_idx cfg s (rn_bc n).
+Definition morpheme_end_c (cfg : bcfg) (s : buf) (n : rnode) : option nat := to_orig_char_idx cfg s (rn_ec n).
+Definition morpheme_surface (s : buf) (n : rnode) : option (list N) := orig_slice s (rn_bb n) (rn_eb n).
+
+(* ---- correspondence entry: the character-level accessors of one built buffer.
+   bow = can_bow(i) for every byte, cats = cat_at_char(c) for every character (inputs: they depend on char.def);
+   pairs = (a, b, curr_slice_c(a..b), orig_slice_c(a..b), cat_of_range(a..b)); dists = (cpt, off, char_distance);
+   wcl = get_word_candidate_length(c) for every character index c (None = panic) *)
+Definition obytes_eqb (a : option (list N)) (b : option (list N)) : bool := opt_eqb (list_eqb N.eqb) a b.
+
+Definition check_c08_chars (o c : list N) (m : list N) (bow : list bool) (cats : list N)
+           (pairs : list (N * N * option (list N) * option (list N) * option N))
+           (dists : list (N * N * option N)) (wcl : list (option N)) : bool :=
+  let s := mkBuf o c (map N.to_nat m) in
+  forallb (fun x => let '(a, b, cs, os, cr) := x in
+     obytes_eqb (curr_slice_c c (N.to_nat a) (N.to_nat b)) cs &&
+     obytes_eqb (orig_slice_c s (N.to_nat a) (N.to_nat b)) os &&
+     opt_eqb N.eqb (cat_of_range cats (N.to_nat a) (N.to_nat b)) cr) pairs &&
+  forallb (fun x => let '(cpt, off, d) := x in
+     opt_eqb N.eqb (option_map N.of_nat (char_distance c (N.to_nat cpt) (N.to_nat off))) d) dists &&
+  list_eqb (opt_eqb N.eqb) (map (fun ci => option_map N.of_nat (word_candidate_length c bow ci)) (seq 0 (length wcl))) wcl &&
+  (* ch_idx o to_curr_byte_idx = identity on a non-empty text *)
+  (match c with
+   | [] => true
+   | _ => forallb (fun ci => match to_curr_byte_idx c ci with
+                             | Some p => opt_eqb Nat.eqb (ch_idx the_cfg c p) (Some ci)
+                             | None => false
+                             end) (seq 0 (char_len c + 1))
+   end).
